@@ -61,6 +61,32 @@ pub fn seeded_with(plan: Plan, full: bool, depth: u32, probes: Vec<TProbe>, tier
     Box::new(b)
 }
 
+/// One home per id (ids 32 apart share a home in a 32-bucket table): a table exactly at its load limit in which
+/// an element sits one bucket behind its home, the home itself EMPTY again, inside a run of a full group -
+/// removing it leaves a tombstone, and the vacant entry handed back must denote that very bucket.
+fn displaced_behind_empty_home(tier: Tier) -> Box<dyn Config> {
+    let mut c = TabCfg::new(Plan::Seq, 40);
+    c.max_len = 30;
+    c.max_dup = 1;
+    c.max_buckets = 64;
+    c.full_alphabet = true;
+    let label = format!("{}-displaced-behind-empty-home-d1", c.label());
+    let lim = Limits { max_depth: Some(1), max_wall_s: if tier == Tier::Quick { 30.0 } else { 300.0 }, ..Default::default() };
+    let mut b = BfsConfig::new(label, TabHarness::new(c), lim);
+    let mut seeds = Vec::new();
+    for fill_to in [28u8, 27] {
+        // grow to 32 buckets first (a resize would put the displaced element back at its home)
+        // (15 elements far from bucket 0 bring the table to 32 buckets; the neighbourhood of bucket 0 is still sparse
+        // when the home is vacated, so it becomes EMPTY, not a tombstone)
+        let mut h: Vec<TabOp> = (14..=28).map(TabOp::InsertUnique).collect();
+        h.extend([TabOp::InsertUnique(0), TabOp::InsertUnique(32), TabOp::Remove(0)]);
+        h.extend((2..=fill_to - 15).map(TabOp::InsertUnique));
+        seeds.push(h);
+    }
+    b.seeds = seeds;
+    Box::new(b)
+}
+
 pub fn configs(tier: Tier) -> Vec<Box<dyn Config>> {
     let sse2 = super::width() == 16;
     let q = tier == Tier::Quick;
@@ -78,6 +104,7 @@ pub fn configs(tier: Tier) -> Vec<Box<dyn Config>> {
     // a panic in the caller's hasher / equality / entry closures leaves a valid table (details: C04)
     v.push(super::c04::mk_table(Plan::Zero, if q { 4 } else { 6 }, if q { 5 } else { 8 }, vec![vec![]], None, tier, ""));
     v.push(Box::new(super::rehash::RehashGrammar { tier }));
+    v.push(displaced_behind_empty_home(tier));
     for plan in [Plan::Zero, Plan::Tail, Plan::Max] {
         v.push(seeded(plan, true, 1, tier));
         v.push(seeded(plan, false, if q { 2 } else { 3 }, tier));
